@@ -8,7 +8,9 @@ import numeric
 
 
 class Pair:
-    def __init__(self, e1, e2, targets, label, special=None, meta=None):
+    def __init__(self, e1, e2, targets, label, special=None, meta=None,
+                 deltas=False):
+        self.deltas = deltas
         self.e1, self.e2 = e1, e2
         self.targets = list(targets)
         self.label = label
@@ -25,12 +27,22 @@ def prepare(pair):
     pair.p1 = adcio.conv_expr(pair.e1, ctx)
     pair.p2 = adcio.conv_expr(pair.e2, ctx)
     pair.tg = [ctx.conv(x) for x in pair.targets]
-    c1, f1 = certfind.expr_cert(pair.p1, pair.tg)
-    c2, f2 = certfind.expr_cert(pair.p2, pair.tg)
-    pair.full = f1 and f2
-    tg = adcio.coq_list(x.coq() for x in pair.tg)
+    return coq_case(pair.p1, pair.p2, pair.tg, pair.deltas)
+
+
+def coq_case(p1, p2, tgc, deltas=False):
+    """Coq term deciding p1 == p2 (pyterm lists) with targets tgc; with
+    deltas=True the certificate may eliminate Kronecker deltas
+    (ADC.Core.Equiv2.check_equiv2; evaluate with adcio.COQ_HEADER2)"""
+    c1, f1 = certfind.expr_cert(p1, tgc, deltas)
+    c2, f2 = certfind.expr_cert(p2, tgc, deltas)
+    tg = adcio.coq_list(x.coq() for x in tgc)
+    if deltas:
+        return (f"check_equiv2 {tg} {adcio.coq_cert2(c1)} "
+                f"{adcio.coq_cert2(c2)} {adcio.coq_expr(p1)} "
+                f"{adcio.coq_expr(p2)}")
     return (f"check_equiv {tg} {adcio.coq_cert(c1)} {adcio.coq_cert(c2)} "
-            f"{adcio.coq_expr(pair.p1)} {adcio.coq_expr(pair.p2)}")
+            f"{adcio.coq_expr(p1)} {adcio.coq_expr(p2)}")
 
 
 def run_pairs(ctx, tag, pairs, shard=40, search=True, timeout=900):
@@ -44,7 +56,9 @@ def run_pairs(ctx, tag, pairs, shard=40, search=True, timeout=900):
         except adcio.Unsupported as ex:
             p.ok = None
             p.err = f"unsupported: {ex}"
-    vals, errs = ctx.coq_eval(tag, cases, shard=shard, timeout=timeout)
+    hdr = adcio.COQ_HEADER2 if any(p.deltas for p in pairs) else None
+    vals, errs = ctx.coq_eval(tag, cases, header=hdr, shard=shard,
+                              timeout=timeout)
     for n, v in zip(idxs, vals):
         p = pairs[n]
         if v is None:
